@@ -33,7 +33,8 @@ def judge(item):
     """item = (beh_json, layout, seed). Returns (status, sig, detail, src)."""
     beh, layout, seed = item
     rnd = random.Random(seed)
-    src = progs.render(beh, layout, rnd)
+    # (one program in four ends without a final newline, one in eight has CR LF line ends)
+    src = progs.render(beh, layout, rnd, final_newline=(seed % 4 != 1), crlf=(seed % 8 == 3 and layout != 'comments'))
     if src is None:
         return ('unrenderable', None, None, None)
     want = beh['deriv']
